@@ -426,9 +426,14 @@ def order_query(prog, ty, K, timeout_ms, mod):
 K_FOR = {"MT935": 1}
 
 
+# the order queries of these types are not answered at K = 3 within the time limit: their bound stays K = 2 in the thorough tier
+K_CAP = {"MT101": 2, "MT104": 2}
+
+
 def _worker(args):
     ty, K = args
     K = K_FOR.get(ty, K)
+    K = min(K, K_CAP.get(ty, K))
     try:
         prog = Program(layout_mod.extract_ast())
         return check_type(prog, ty, K)
